@@ -3008,7 +3008,8 @@ class Color(Parameter):
     def _validate_allow_named(self, val, allow_named):
         if (val is None and self.allow_None):
             return
-        is_hex = re.match('^#?(([0-9a-fA-F]{2}){3}|([0-9a-fA-F]){3})$', val)
+        # (fullmatch: '$' also matches before a trailing newline)
+        is_hex = re.fullmatch('#?(([0-9a-fA-F]{2}){3}|([0-9a-fA-F]){3})', val)
         if self.allow_named:
             if not is_hex and val.lower() not in self._named_colors:
                 raise ValueError(
